@@ -777,13 +777,14 @@ func c04FuncInCore(it *c04Item) bool {
 	return c04InCore(it.a, 1) && c04InCore(it.b, 0)
 }
 
-// c04InCore mirrors Spec.core_x (ctx 0), Spec.pcore_x (ctx 1) and Spec.catch_params_only (ctx 2): the fragment
-// for which resolution_correct_partial is proved
+// c04InCore mirrors Spec.core_x (ctx 0), Spec.hcore_x false = pcore_x (ctx 1: a parameter list) and Spec.hcore_x true
+// (ctx 2: the parameter pattern of a catch clause, where default values may mention later names of the pattern): the
+// fragment for which resolution_correct is proved
 func c04InCore(l []*c04Item, ctx int) bool {
 	for i, it := range l {
 		switch it.kind {
 		case c04KRef:
-			if ctx == 2 || ctx == 1 && c04Intersects([]int{it.x}, c04HeadNames(l[i+1:])) {
+			if ctx == 1 && c04Intersects([]int{it.x}, c04HeadNames(l[i+1:])) {
 				return false
 			}
 		case c04KDecl:
@@ -795,7 +796,7 @@ func c04InCore(l []*c04Item, ctx int) bool {
 				return false
 			}
 		case c04KFunc, c04KArrow:
-			if ctx == 2 || !c04FuncInCore(it) {
+			if !c04FuncInCore(it) {
 				return false
 			}
 			if ctx == 1 && c04Intersects(append(c04AllNames(it.a), c04AllNames(it.b)...), c04HeadNames(l[i+1:])) {
@@ -809,9 +810,10 @@ func c04InCore(l []*c04Item, ctx int) bool {
 				}
 			}
 		case c04KFor:
-			// the head mentions no name the body declares lexically; var names of the head differ from the lexical ones
+			// the body declares lexically no name the head declares (let / const / var); var names of the head differ
+			// from the lexical ones
 			if ctx != 0 || !c04InCore(it.a, 0) || !c04InCore(it.b, 0) ||
-				c04Intersects(c04AllNames(it.a), c04LexNames(it.b)) ||
+				c04Intersects(c04LexNames(it.a), c04LexNames(it.b)) ||
 				c04Intersects(c04VarNames(it.a), append(c04LexNames(it.a), c04LexNames(it.b)...)) {
 				return false
 			}
@@ -821,7 +823,7 @@ func c04InCore(l []*c04Item, ctx int) bool {
 			}
 		case c04KClass:
 			// a class body without class-expression name; the members declare nothing (no var in static blocks)
-			if ctx == 2 || it.nm >= 0 || !c04InCore(it.a, 0) || len(c04LexNames(it.a)) != 0 || len(c04VarNames(it.a)) != 0 {
+			if it.nm >= 0 || !c04InCore(it.a, 0) || len(c04LexNames(it.a)) != 0 || len(c04VarNames(it.a)) != 0 {
 				return false
 			}
 			if ctx == 1 && c04Intersects(c04AllNames(it.a), c04HeadNames(l[i+1:])) {
@@ -832,6 +834,25 @@ func c04InCore(l []*c04Item, ctx int) bool {
 		}
 	}
 	return true
+}
+
+// c04Unmodelled: constructs the label machine of the proof has no step for: class-expression names (the merge of the
+// pending uses into the name), x => ... and the parenthesised arrow cover (UndeclareScope)
+func c04Unmodelled(l []*c04Item) bool {
+	for _, it := range l {
+		switch it.kind {
+		case c04KArrowId, c04KParen, c04KPRef:
+			return true
+		case c04KClass:
+			if it.nm >= 0 {
+				return true
+			}
+		}
+		if c04Unmodelled(it.a) || c04Unmodelled(it.b) {
+			return true
+		}
+	}
+	return false
 }
 
 // c04HasLoopOrName: some loop or function-expression name occurs
@@ -1011,6 +1032,13 @@ func c04Oracle(r *Rng, tier string, rep *Report) {
 			bucket = "early-error"
 		}
 		replay := map[string]interface{}{"source": src, "program": fmtInts(c04EncodeProg(l, nil)), "origin": origin}
+		// the fragment of resolution_correct_partial (c04InCore mirrors Spec.core_x) is the complement of the known
+		// deviations and of the constructs the proof does not model, on programs without redeclaration error
+		if ok {
+			if core, want := c04InCore(l, 0), len(feats) == 0 && !c04Unmodelled(l); core != want {
+				rep.Violate("c04-harness:fragment-not-exact", fmt.Sprintf("%q: in the fragment of the theorem: %v, free of known deviations %v and of unmodelled constructs: %v", src, core, feats, !c04Unmodelled(l)), replay)
+			}
+		}
 		p := c04ParseJS(src)
 		if p.pan != nil {
 			rep.Violate("c04-panic:"+src, fmt.Sprintf("js.Parse panics on %q: %v", src, p.pan), replay)
